@@ -273,3 +273,8 @@ Definition loaded (st : storage) (ident : str) (r : resource) : Prop :=
 Definition ostr_eqb := opt_eqb str_eqb.
 Definition kind_of_string (template : bool) (mime : string) : resource_kind :=
   if template then Kind_Template else Kind_Mime (mime_from_string mime).
+Definition category_code (c : category) : N :=
+  match c with CatCsp => 0 | CatRemoveparam => 1 | CatGenericHide => 2 | CatExceptions => 3
+             | CatImportants => 4 | CatTagged => 5 | CatFilters => 6 | CatNowhere => 7 end.
+Definition cat_eqb (a b : category) : bool := N.eqb (category_code a) (category_code b).
+Definition oz_eqb := opt_eqb Z.eqb.
